@@ -398,3 +398,367 @@ Proof.
       { replace (Z.of_nat (c + length q) + 1) with (Z.of_nat (S (c + length q))) by lia. rewrite HP. lia. }
       rewrite E, IH1. split; [cbn [app]; do 3 f_equal; lia|lia].
 Qed.
+
+(** ** the machine arithmetic of the shortcut *)
+
+(** [diffbits] and [fixed] as the code computes them *)
+Definition diffbits_of (h idx : Z) : Z := i32 (32 - i32 (lz32 (u32 (Z.lxor (i32 (idx - h)) idx)))).
+Definition fixed_of (h idx : Z) : Z := i32 (i32 (h + 1) - diffbits_of h idx).
+
+Lemma shortcut_unfold h idx mask :
+  shortcut h idx mask =
+  if 4 <? h then
+    if 0 <? fixed_of h idx then
+      let m := u64 (shl64 mask 1 - shl64 c01 (uint_of_i32 (diffbits_of h idx))) in
+      (Z.land (idxword idx) m,
+       i32 (i32 (Z.land idx (i32 (not64 m)) - fixed_of h idx)
+            + i32 (popcount (u32 (Z.land idx (i32 m))))),
+       shr64 mask (uint_of_i32 (fixed_of h idx)))
+    else (0, idx, mask)
+  else (0, idx, mask).
+Proof. reflexivity. Qed.
+
+(** index < height: index - height is negative, the xor has bit 31, nothing is fixed *)
+Lemma fixed_of_small h idx : 0 <= h <= 30 -> 0 <= idx < h -> (0 <? fixed_of h idx) = false.
+Proof.
+  intros Hh Hi.
+  assert (F : forallb (fun h => forallb (fun i => negb (0 <? fixed_of (Z.of_nat h) (Z.of_nat i))) (seq 0 h))
+                (seq 0 31) = true) by (vm_compute; reflexivity).
+  rewrite forallb_forall in F. specialize (F (Z.to_nat h) ltac:(apply in_seq; lia)).
+  rewrite forallb_forall in F. specialize (F (Z.to_nat idx) ltac:(apply in_seq; lia)).
+  rewrite !Z2Nat.id in F by lia. now apply negb_true_iff in F.
+Qed.
+
+(** index >= height: diffbits is the bit length of (index - height) xor index *)
+Lemma diffbits_of_eq h idx : 0 <= h <= 30 -> h <= idx < 2 ^ 31 ->
+  diffbits_of h idx = bitlen (Z.lxor (idx - h) idx) /\ fixed_of h idx = h + 1 - bitlen (Z.lxor (idx - h) idx)
+  /\ 0 <= Z.lxor (idx - h) idx < 2 ^ 31.
+Proof.
+  intros Hh Hi. unfold fixed_of, diffbits_of.
+  rewrite (i32_id (idx - h)) by lia.
+  pose proof (lxor_bound (idx - h) idx 31 ltac:(lia) ltac:(lia) ltac:(lia)) as HX.
+  set (x := Z.lxor (idx - h) idx) in *.
+  rewrite u32_id by lia. unfold lz32.
+  pose proof (bitlen_nonneg x). pose proof (bitlen_le x 31 ltac:(lia) HX).
+  rewrite (i32_id (32 - bitlen x)) by lia.
+  replace (32 - (32 - bitlen x)) with (bitlen x) by lia.
+  rewrite (i32_id (bitlen x)) by lia. rewrite (i32_id (h + 1)) by lia.
+  rewrite i32_id by lia. auto.
+Qed.
+
+(** the mask of the fixed bits, in both halves *)
+Lemma m_eq h d : (h <= 30)%nat -> 0 <= d <= Z.of_nat h ->
+  u64 (shl64 (maskAt h) 1 - shl64 c01 (uint_of_i32 d))
+  = (2 ^ (Z.of_nat h + 1) - 2 ^ d) * 2 ^ 32 + (2 ^ (Z.of_nat h + 1) - 2 ^ d).
+Proof.
+  intros Hh Hd. pose proof (pow2_le_30 h Hh).
+  assert (0 < 2 ^ d <= 2 ^ Z.of_nat h) by (split; [apply pow2_pos|apply pow2_le]; lia).
+  unfold uint_of_i32. rewrite (u64_id d) by lia.
+  unfold maskAt, c01. change 0x0100000001 with (2 ^ 32 + 1).
+  rewrite pow2_succ by lia.
+  rewrite shl64_small by (change (2 ^ 1) with 2; lia).
+  rewrite shl64_small by lia.
+  change (2 ^ 1) with 2. rewrite u64_id by lia. lia.
+Qed.
+
+Lemma i32_word_lo ml : 0 <= ml < 2 ^ 31 -> i32 (ml * 2 ^ 32 + ml) = ml.
+Proof.
+  intros H. rewrite <- i32_u32. unfold u32. rewrite mod_hi_lo by lia. apply i32_id. lia.
+Qed.
+
+Lemma i32_not_word_lo ml : 0 <= ml < 2 ^ 31 -> i32 (not64 (ml * 2 ^ 32 + ml)) = -1 - ml.
+Proof.
+  intros H. unfold not64.
+  replace (2 ^ 64 - 1 - (ml * 2 ^ 32 + ml)) with ((2 ^ 32 - 1 - ml) * 2 ^ 32 + (2 ^ 32 - 1 - ml)) by lia.
+  rewrite <- i32_u32. unfold u32. rewrite mod_hi_lo by lia. rewrite i32_hi by lia. lia.
+Qed.
+
+Lemma p2_fixed_eq idx ml : 0 <= idx < 2 ^ 31 -> 0 <= ml < 2 ^ 31 ->
+  Z.land (idxword idx) (ml * 2 ^ 32 + ml) = Z.land idx ml * 2 ^ 32 + ml.
+Proof.
+  intros Hi Hm. rewrite idxword_eq by lia. rewrite land_halves by lia. f_equal.
+  rewrite Z.land_comm. change (2 ^ 32 - 1) with (Z.ones 32). rewrite Z.land_ones by lia.
+  apply Z.mod_small. lia.
+Qed.
+
+(** what the shortcut must establish for the loop to take over *)
+Definition sc_ok (h : nat) (idx : Z) (r : Z * Z * Z) : Prop :=
+  exists c q0 idx', (c <= h)%nat /\ length q0 = (h - c)%nat /\
+    0 <= idx' < 2 ^ (Z.of_nat c + 1) - 1 /\
+    r = (p2At h c (val_msb q0), idx', maskAt c) /\
+    node_at h idx = q0 ++ node_at c idx'.
+
+Lemma sc_ok_none h idx : 0 <= idx < 2 ^ (Z.of_nat h + 1) - 1 -> sc_ok h idx (0, idx, maskAt h).
+Proof.
+  intros Hi. exists h, [], idx. repeat split; try lia.
+  - cbn [length]. lia.
+  - unfold p2At. rewrite val_msb_nil, Nat.sub_diag. change (2 ^ Z.of_nat 0) with 1.
+    do 2 f_equal. lia.
+Qed.
+
+Lemma shortcut_spec h idx : (h <= 30)%nat -> 0 <= idx < 2 ^ (Z.of_nat h + 1) - 1 ->
+  sc_ok h idx (shortcut (Z.of_nat h) idx (maskAt h)).
+Proof.
+  intros Hh Hi. rewrite shortcut_unfold.
+  assert (H31 : 2 ^ (Z.of_nat h + 1) <= 2 ^ 31) by (apply pow2_le; lia).
+  destruct (Z.ltb_spec 4 (Z.of_nat h)) as [H4|]; [|now apply sc_ok_none].
+  destruct (Z.lt_ge_cases idx (Z.of_nat h)) as [Hs|Hs].
+  { rewrite fixed_of_small by lia. now apply sc_ok_none. }
+  destruct (diffbits_of_eq (Z.of_nat h) idx ltac:(lia) ltac:(lia)) as (ED & EF & HX).
+  rewrite EF, ED.
+  set (x := Z.lxor (idx - Z.of_nat h) idx) in *. set (d := bitlen x) in *.
+  destruct (Z.ltb_spec 0 (Z.of_nat h + 1 - d)) as [Hf|]; [|now apply sc_ok_none].
+  (* the shortcut is taken *)
+  assert (Hx0 : x <> 0). { unfold x. intros E. apply Z.lxor_eq in E. lia. }
+  assert (Hd1 : 1 <= d) by (apply bitlen_pos; lia).
+  assert (Hxd : x < 2 ^ d) by (apply lt_pow2_bitlen; lia).
+  assert (HA : (idx - Z.of_nat h) / 2 ^ d = idx / 2 ^ d)
+    by (apply lxor_small_same_high; try lia; exact Hxd).
+  set (c := Z.to_nat (d - 1)). set (k := (h - c)%nat).
+  assert (Hc : Z.of_nat c + 1 = d) by (unfold c; lia).
+  assert (Hk : Z.of_nat k = Z.of_nat h + 1 - d) by (unfold k, c; lia).
+  assert (HD : 0 < 2 ^ d) by (apply pow2_pos; lia).
+  assert (HKD : 2 ^ Z.of_nat k * 2 ^ d = 2 ^ (Z.of_nat h + 1)).
+  { rewrite <- Z.pow_add_r by lia. f_equal. lia. }
+  pose proof (Z.div_mod idx (2 ^ d) ltac:(lia)) as Edm.
+  pose proof (Z.mod_pos_bound idx (2 ^ d) HD) as Hlow.
+  pose proof (Z.div_mod (idx - Z.of_nat h) (2 ^ d) ltac:(lia)) as Edm'.
+  pose proof (Z.mod_pos_bound (idx - Z.of_nat h) (2 ^ d) HD) as Hlow'.
+  rewrite HA in Edm'.
+  set (A := idx / 2 ^ d) in *. set (low := idx mod 2 ^ d) in *.
+  assert (HlowH : Z.of_nat h <= low) by lia.
+  assert (HA0 : 0 <= A) by (apply Z.div_pos; lia).
+  assert (HAK : A < 2 ^ Z.of_nat k).
+  { apply Z.div_lt_upper_bound; [lia|]. rewrite Z.mul_comm, HKD. lia. }
+  set (q0 := rev (bits k A)).
+  assert (Hq0 : length q0 = k) by (unfold q0; rewrite rev_length; apply bits_length).
+  assert (HvA : val_msb q0 = A) by (apply val_msb_rev_bits; lia).
+  set (ml := 2 ^ (Z.of_nat h + 1) - 2 ^ d).
+  assert (Hml : 0 <= ml < 2 ^ 31).
+  { unfold ml. assert (2 ^ d <= 2 ^ (Z.of_nat h + 1)) by (apply pow2_le; lia). lia. }
+  rewrite m_eq by lia. fold ml. cbn zeta.
+  rewrite i32_word_lo, i32_not_word_lo, p2_fixed_eq by lia.
+  unfold ml at 1 3. rewrite land_pow2_diff, land_compl_pow2_diff by lia. fold A low.
+  assert (HAD : 0 <= A * 2 ^ d <= idx) by nia.
+  rewrite (u32_id (A * 2 ^ d)) by lia.
+  replace (popcount (A * 2 ^ d)) with (count_true q0).
+  2:{ rewrite <- Hc. replace (Z.of_nat c + 1) with (Z.of_nat (S c)) by lia.
+      rewrite popcount_mul_pow2 by lia. rewrite <- HvA. symmetry. apply popcount_val_msb. }
+  pose proof (count_true_nonneg q0). pose proof (count_true_le_length q0).
+  destruct (node_at_fixed q0 c low) as [EN RN].
+  { rewrite Hq0, Hc. lia. }
+  { rewrite HvA, Hc, Hq0. replace (c + k)%nat with h by (unfold k, c; lia). lia. }
+  rewrite HvA, Hc, Hq0 in EN. replace (c + k)%nat with h in EN by (unfold k, c; lia).
+  replace (A * 2 ^ d + low) with idx in EN by lia.
+  rewrite Hq0, Hc in RN.
+  exists c, q0, (low - (Z.of_nat k - count_true q0)).
+  split; [unfold k, c; lia|]. split; [exact Hq0|]. split; [rewrite Hc; exact RN|]. split; [|exact EN].
+  f_equal; [f_equal|].
+  - (* p2 *)
+    unfold p2At. rewrite HvA, Hc. fold k. unfold ml. rewrite <- HKD. lia.
+  - (* index *)
+    rewrite (i32_id (low - _)) by lia. rewrite (i32_id (count_true q0)) by lia.
+    rewrite i32_id by lia. lia.
+  - (* mask *)
+    unfold uint_of_i32. rewrite u64_id by lia. rewrite shr64_div by lia. rewrite <- Hk.
+    unfold maskAt. replace (2 ^ Z.of_nat h) with (2 ^ Z.of_nat c * 2 ^ Z.of_nat k).
+    2:{ rewrite <- Z.pow_add_r by lia. f_equal. unfold k, c. lia. }
+    rewrite Z.mul_assoc. apply Z.div_mul. pose proof (pow2_pos (Z.of_nat k)). lia.
+Qed.
+
+(** * the main statements *)
+
+Lemma mask_init h : (h <= 30)%nat -> shl64 c01 (uint_of_i32 (Z.of_nat h)) = maskAt h.
+Proof.
+  intros Hh. pose proof (pow2_le_30 h Hh). unfold uint_of_i32. rewrite u64_id by lia.
+  unfold maskAt, c01. change 0x0100000001 with (2 ^ 32 + 1). apply shl64_small; lia.
+Qed.
+
+(** the model computes the word of the node the pure descent finds *)
+Lemma IndexToPath_node_at h idx : (h <= 30)%nat -> 0 <= idx < 2 ^ (Z.of_nat h + 1) - 1 ->
+  IndexToPath (Z.of_nat h) idx = Some (enc h (node_at h idx)).
+Proof.
+  intros Hh Hi. unfold IndexToPath. rewrite mask_init by exact Hh.
+  destruct (shortcut_spec h idx Hh Hi) as (c & q0 & idx' & Hc & Hq & Hi' & Er & EN).
+  rewrite Er.
+  destruct (loop_result h Hh c q0 idx' 64 Hc Hq Hi' ltac:(lia)) as (p2' & idx'' & mask' & t & L1 & L2 & L3).
+  rewrite L1, L2, L3, EN. reflexivity.
+Qed.
+
+(** C05, first form *)
+Lemma IndexToPath_inverse h idx : (h <= 30)%nat -> 0 <= idx < 2 ^ (Z.of_nat h + 1) - 1 ->
+  exists q, (length q <= h)%nat /\
+    IndexToPath (Z.of_nat h) idx = Some (enc h q) /\
+    PathToIndex (2 ^ (Z.of_nat h + 1) - 1) (enc h q) = Some idx.
+Proof.
+  intros Hh Hi. exists (node_at h idx). split; [apply node_at_length|]. split.
+  - now apply IndexToPath_node_at.
+  - change (2 ^ (Z.of_nat h + 1) - 1) with (fullT h).
+    rewrite PathToIndex_full by (try lia; apply node_at_length).
+    now rewrite full_rank_node_at.
+Qed.
+
+(** C05, second form: IndexToPath after PathToIndex is the identity on the nodes of the full tree *)
+Lemma IndexToPath_PathToIndex h q : (h <= 30)%nat -> (length q <= h)%nat ->
+  exists i, PathToIndex (2 ^ (Z.of_nat h + 1) - 1) (enc h q) = Some i /\
+            0 <= i < 2 ^ (Z.of_nat h + 1) - 1 /\
+            IndexToPath (Z.of_nat h) i = Some (enc h q).
+Proof.
+  intros Hh Hl. exists (full_rank h q). split; [|split].
+  - change (2 ^ (Z.of_nat h + 1) - 1) with (fullT h). now apply PathToIndex_full.
+  - now apply full_rank_bound.
+  - rewrite IndexToPath_node_at by (try lia; now apply full_rank_bound).
+    now rewrite node_at_full_rank.
+Qed.
+
+(** the loop and the table alone (shortcut skipped): the statement DESIGN names as the fallback *)
+Lemma loop_table_only h idx : (h <= 30)%nat -> 0 <= idx < 2 ^ (Z.of_nat h + 1) - 1 ->
+  match descent_loop 64 0 idx (maskAt h) with
+  | Some (p2, i, m) =>
+      match idxToPath_at (Z.land m 15) i with
+      | Some t => Z.lor (shr64 p2 1) t = enc h (node_at h idx)
+      | None => False
+      end
+  | None => False
+  end.
+Proof.
+  intros Hh Hi.
+  destruct (loop_result h Hh h [] idx 64 ltac:(lia) ltac:(cbn [length]; lia) Hi ltac:(lia))
+    as (p2' & idx' & mask' & t & L1 & L2 & L3).
+  replace (p2At h h (val_msb [])) with 0 in L1.
+  2:{ unfold p2At. rewrite val_msb_nil, Nat.sub_diag. change (2 ^ Z.of_nat 0) with 1. lia. }
+  rewrite L1, L2. exact L3.
+Qed.
+
+(** * the enumerated pre-order: [all_nodes] agrees with the recursive definitions *)
+
+Lemma all_nodes_length h : Z.of_nat (length (all_nodes h)) = 2 ^ (Z.of_nat h + 1) - 1.
+Proof.
+  induction h as [|k IH]; [reflexivity|].
+  cbn [all_nodes length]. rewrite app_length, !map_length.
+  replace (Z.of_nat (S k) + 1) with ((Z.of_nat k + 1) + 1) by lia.
+  rewrite (pow2_succ (Z.of_nat k + 1)) by lia. lia.
+Qed.
+
+Lemma all_nodes_le h : forall r, In r (all_nodes h) -> (length r <= h)%nat.
+Proof.
+  induction h as [|k IH]; intros r Hr.
+  - destruct Hr as [<-|[]]. cbn; lia.
+  - cbn [all_nodes] in Hr. destruct Hr as [<-|Hr]; [cbn; lia|].
+    apply in_app_or in Hr. destruct Hr as [Hr|Hr]; apply in_map_iff in Hr;
+      destruct Hr as (r' & <- & Hr'); specialize (IH r' Hr'); cbn [length]; lia.
+Qed.
+
+Lemma nth_all_nodes h : forall idx, 0 <= idx < 2 ^ (Z.of_nat h + 1) - 1 ->
+  nth (Z.to_nat idx) (all_nodes h) [] = node_at h idx.
+Proof.
+  induction h as [|k IH]; intros idx Hi.
+  - change (2 ^ (Z.of_nat 0 + 1) - 1) with 1 in Hi. replace idx with 0 by lia. reflexivity.
+  - destruct (Z.eq_dec idx 0) as [->|Hn]; [reflexivity|].
+    destruct (node_at_step k idx ltac:(lia)) as [E R]. cbn zeta in E, R. rewrite E.
+    pose proof (all_nodes_length k) as HL.
+    replace (Z.of_nat k + 1) with (Z.of_nat (S k)) in * by lia.
+    replace (Z.to_nat idx) with (S (Z.to_nat (idx - 1))) by lia.
+    cbn [all_nodes nth].
+    destruct (Z.leb_spec (2 ^ Z.of_nat (S k)) idx).
+    + rewrite app_nth2 by (rewrite map_length; lia). rewrite map_length.
+      replace (Z.to_nat (idx - 1) - length (all_nodes k))%nat with (Z.to_nat (idx - 2 ^ Z.of_nat (S k))) by lia.
+      rewrite (nth_indep _ [] (true :: [])) by (rewrite map_length; lia).
+      rewrite map_nth. f_equal. apply IH. replace (Z.of_nat k + 1) with (Z.of_nat (S k)) by lia. exact R.
+    + rewrite app_nth1 by (rewrite map_length; lia).
+      rewrite (nth_indep _ [] (false :: [])) by (rewrite map_length; lia).
+      rewrite map_nth. f_equal. apply IH. replace (Z.of_nat k + 1) with (Z.of_nat (S k)) by lia. exact R.
+Qed.
+
+Lemma filter_all {A} (f : A -> bool) l : (forall x, In x l -> f x = true) -> filter f l = l.
+Proof.
+  induction l as [|x l IH]; intros H; [reflexivity|]. cbn [filter].
+  rewrite (H x (or_introl eq_refl)). f_equal. apply IH. intros y Hy. apply H. now right.
+Qed.
+
+Lemma filter_none {A} (f : A -> bool) l : (forall x, In x l -> f x = false) -> filter f l = [].
+Proof.
+  induction l as [|x l IH]; intros H; [reflexivity|]. cbn [filter].
+  rewrite (H x (or_introl eq_refl)). apply IH. intros y Hy. apply H. now right.
+Qed.
+
+Lemma filter_map_comp {A B} (f : B -> bool) (g : A -> B) l :
+  filter f (map g l) = map g (filter (fun x => f (g x)) l).
+Proof.
+  induction l as [|x l IH]; [reflexivity|]. cbn [map filter].
+  destruct (f (g x)); cbn [map]; now rewrite IH.
+Qed.
+
+Lemma stored_nodes_full h : stored_nodes (fullT h) h = all_nodes h.
+Proof.
+  unfold stored_nodes. apply filter_all. intros r Hr. apply all_nodes_le in Hr.
+  unfold stored, fullT. replace (2 ^ (Z.of_nat h + 1) - 1) with (2 ^ (Z.of_nat h + 1) - 2 ^ 0) by reflexivity.
+  rewrite testbit_pow2_diff by lia.
+  destruct (Z.leb_spec 0 (Z.of_nat (length r))), (Z.ltb_spec (Z.of_nat (length r)) (Z.of_nat h + 1)); try lia.
+  reflexivity.
+Qed.
+
+Lemma count_before : forall h q, (length q <= h)%nat ->
+  Z.of_nat (length (filter (fun r => pre_ltb r q) (all_nodes h))) = full_rank h q.
+Proof.
+  induction h as [|k IH]; intros q Hl.
+  - destruct q; [reflexivity|cbn [length] in Hl; lia].
+  - destruct q as [|b q].
+    + rewrite filter_none; [reflexivity|]. intros r _. destruct r; reflexivity.
+    + cbn [length] in Hl. cbn [all_nodes filter full_rank].
+      change (pre_ltb [] (b :: q)) with true. cbn iota. cbn [length].
+      rewrite filter_app, app_length, !filter_map_comp, !map_length.
+      replace (S k - 1)%nat with k by lia.
+      pose proof (all_nodes_length k) as HL. replace (Z.of_nat k + 1) with (Z.of_nat (S k)) in HL by lia.
+      destruct b.
+      * rewrite (filter_all (fun x => pre_ltb (false :: x) (true :: q))) by (intros; reflexivity).
+        rewrite (filter_ext (fun x => pre_ltb (true :: x) (true :: q)) (fun r => pre_ltb r q)) by (intros; reflexivity).
+        specialize (IH q ltac:(lia)). lia.
+      * rewrite (filter_none (fun x => pre_ltb (true :: x) (false :: q))) by (intros; reflexivity).
+        rewrite (filter_ext (fun x => pre_ltb (false :: x) (false :: q)) (fun r => pre_ltb r q)) by (intros; reflexivity).
+        specialize (IH q ltac:(lia)). cbn [length]. lia.
+Qed.
+
+Lemma enum_rank_full_rank h q : (length q <= h)%nat -> enum_rank h q = full_rank h q.
+Proof.
+  intros Hl. unfold enum_rank, pre_rank. rewrite stored_nodes_full. now apply count_before.
+Qed.
+
+Lemma enum_node_at_eq h idx : 0 <= idx < 2 ^ (Z.of_nat h + 1) - 1 -> enum_node_at h idx = node_at h idx.
+Proof. apply nth_all_nodes. Qed.
+
+(** * the checker of the correspondence run is exactly the functional specification *)
+
+Lemma dec_enc h q : (h <= 32)%nat -> (length q <= h)%nat -> dec h (enc h q) = q.
+Proof.
+  intros Hh Hl. unfold dec.
+  change (enc h q mod 2 ^ 32) with (u32 (enc h q)). rewrite enc_mod32, enc_div32 by assumption.
+  rewrite popcount_maskL by exact Hl. rewrite Nat2Z.id.
+  unfold valL. rewrite Z.div_mul by (pose proof (pow2_pos (Z.of_nat h - Z.of_nat (length q))); lia).
+  rewrite bits_val_msb. apply rev_involutive.
+Qed.
+
+Lemma c05_rank_eq h q : (length q <= h)%nat ->
+  (if (h <=? enum_max)%nat then enum_rank h q else full_rank h q) = full_rank h q.
+Proof. intros Hl. destruct (h <=? enum_max)%nat; [now apply enum_rank_full_rank|reflexivity]. Qed.
+
+Lemma check_exact h idx w : (h <= 30)%nat -> 0 <= idx < 2 ^ (Z.of_nat h + 1) - 1 ->
+  check_index_to_path h idx w = true <-> w = enc h (node_at h idx).
+Proof.
+  intros Hh Hi. unfold check_index_to_path, wf_word. split.
+  - intros H. apply andb_prop in H. destruct H as [H1 H2]. apply andb_prop in H1. destruct H1 as [Hl He].
+    apply Nat.leb_le in Hl. apply Z.eqb_eq in He.
+    rewrite c05_rank_eq in H2 by exact Hl. apply Z.eqb_eq in H2.
+    rewrite <- He at 1. f_equal. rewrite <- H2. symmetry. now apply node_at_full_rank.
+  - intros ->. pose proof (node_at_length h idx) as Hl.
+    rewrite dec_enc by (try lia; exact Hl). rewrite c05_rank_eq by exact Hl.
+    rewrite full_rank_node_at by exact Hi. rewrite Z.eqb_refl.
+    apply Nat.leb_le in Hl. rewrite Hl. reflexivity.
+Qed.
+
+Lemma spec_index_to_path_eq h idx : 0 <= idx < 2 ^ (Z.of_nat h + 1) - 1 ->
+  spec_index_to_path h idx = enc h (node_at h idx).
+Proof.
+  intros Hi. unfold spec_index_to_path. destruct (h <=? enum_max)%nat; [|reflexivity].
+  now rewrite enum_node_at_eq.
+Qed.
